@@ -31,7 +31,8 @@ REFUSED_FEATURES = ['NAME_SCOPES', 'AUTO_CONTROL_DEPS', 'ALL', 'LISTS+NAME_SCOPE
 def gen_node(rng, budget, depth, maxdepth):
     """A random node using at most `budget` nodes; returns (node, used)."""
     k = rng.choices(KINDS, weights=[22, 14, 8, 10, 16, 18, 12])[0]
-    nd = {'k': k, 'v': rng.choices(['for', 'while', 'meth', 'partial', 'callable'], weights=[5, 3, 2, 1, 1])[0]}
+    nd = {'k': k, 'v': rng.choices(['for', 'while', 'meth', 'partial', 'callable', 'localdef', 'locallambda', 'twolevel', 'localclass'],
+                                   weights=[5, 3, 2, 1, 1, 2, 1, 1, 1])[0]}
     if k == 'dnc':
         nd['via'] = rng.choice(['api', 'experimental'])
     elif k == 'ctx':
@@ -41,20 +42,20 @@ def gen_node(rng, budget, depth, maxdepth):
         nd['ur'] = rng.random() < 0.65
         nd['via'] = rng.choice(['scope', 'wfs', 'tograph', 'tograph_lam'] if nd['ur'] else ['scope', 'wfs'])
         nd['rec'] = rng.random() < 0.8
-        if nd['via'] == 'tograph' and nd['v'] not in ('for', 'while'):
+        if nd['via'] == 'tograph' and nd['v'] not in X.PLAIN_FUNCTION_VARIANTS:
             nd['v'] = 'for'
         if rng.random() < 0.15:
             nd['feat'] = rng.choice(REFUSED_FEATURES)
     elif k == 'conv':
         nd['ur'] = rng.random() < 0.6
-        nd['c'] = rng.choice(['null', 'null', 'current', ['obj', rng.randrange(X.N_SHARED)], ['obj', rng.randrange(X.N_SHARED)]])
+        nd['c'] = rng.choice(['null', 'null', 'current', 'default', ['obj', rng.randrange(X.N_SHARED)], ['obj', rng.randrange(X.N_SHARED)]])
         nd['rec'] = rng.random() < 0.8
         nd['via'] = rng.choice(['api', 'malt'])
         if rng.random() < 0.15:
             nd['feat'] = rng.choice(REFUSED_FEATURES)
     elif k == 'iconv':
         nd['ur'] = rng.random() < 0.5
-        nd['c'] = rng.choice(['current', 'current', ['obj', rng.randrange(X.N_SHARED)], ['obj', rng.randrange(X.N_SHARED)]])
+        nd['c'] = rng.choice(['current', 'default', 'default', ['obj', rng.randrange(X.N_SHARED)], ['obj', rng.randrange(X.N_SHARED)]])
         nd['cbd'] = rng.random() < 0.5
         nd['via'] = rng.choice(['api', 'malt'])
     if depth > 0 and rng.random() < 0.14 and gen_allowed(nd):
@@ -98,6 +99,32 @@ def gen_allowed(nd):
 def tied(t):
     """Is the whole tree within what the model describes?  (Not: generators the consumer leaves suspended.)"""
     return all(nd.get('take') is None for nd, _ in nodes_of(t))
+
+
+def capture_matrix():
+    """Exhaustive: a context captured elsewhere (the thread's default, a shared object of each status, or the current one)
+    handed to internal_convert / convert inside every kind of enclosing region, x convert_by_default x user_requested,
+    the wrapped function returning or raising (caught by the region's body)."""
+    def N(k, ch=(), ra=None, ca=False, **kw):
+        d = dict(k=k, v=kw.pop('v', 'for'), ch=list(ch), ra=ra, ca=ca)
+        d.update(kw)
+        return d
+    regions = [lambda x: N('plain', [x], None, True), lambda x: N('dnc', [x], None, True, via='api'),
+               lambda x: N('ctx', [x], None, True, st='E', via='helper'), lambda x: N('unspec', [x], None, True),
+               lambda x: N('ctx', [x], None, True, st='D', via='src'), lambda x: N('fs', [x], None, True, ur=True, via='scope'),
+               lambda x: N('fs', [x], None, True, ur=True, via='tograph', rec=True),
+               lambda x: N('conv', [x], None, True, ur=True, c='null', rec=True, via='malt')]
+    out = []
+    for ri, region in enumerate(regions):
+        for c in ('default', ['obj', 0], ['obj', 1], ['obj', 2], 'current'):
+            for cbd in (True, False):
+                for ur in (True, False):
+                    ra = 1 if (ri + cbd + ur) % 2 else None
+                    out.append(N('plain', [region(N('iconv', [N('plain')], ra, False, c=c, cbd=cbd, ur=ur, via='malt' if ur else 'api',
+                                                    v=('while', 'for', 'meth')[ri % 3]))]))
+            for ur in (True, False):
+                out.append(N('plain', [region(N('conv', [N('plain')], None, False, c=c, ur=ur, rec=True, via='api'))]))
+    return out
 
 
 def gen_tree(rng, maxsize, maxdepth):
@@ -490,6 +517,12 @@ def check(run, only_case=None):
         ncorpus += 1
     run.cov['corpus_cases'] = ncorpus
     chk.stop = False
+
+    # ---- exhaustive matrix: captured contexts x enclosing regions
+    mtx = capture_matrix()
+    for t in mtx:
+        chk.seq_case(t, 'capture-matrix')
+    run.cov['capture_matrix_trees'] = len(mtx)
 
     quick = run.tier == 'quick'
     n_seq = 1200 if quick else 12000
